@@ -236,10 +236,14 @@ func runC10(c *core.Ctx) {
 					return core.CallDesc(cc).Is(tp, "", "resolveIfCollapsed") && core.Strip(cc.Args[0]) == ssa.Value(recv)
 				}, core.SuccessReturn, notNeeded(fn), "the collapsed child is resolved (error checked) before success")
 			mustPassChecked(c, fn, "C10/traversal-complete", "extensionNode."+m+"/recurse", nil,
-				func(in ssa.Instruction, cc *ssa.CallCommon) bool { return isInvoke(cc, m) && isRecvField(fn, cc.Value, "child") },
+				func(in ssa.Instruction, cc *ssa.CallCommon) bool {
+					return isInvoke(cc, m) && isRecvField(fn, cc.Value, "child")
+				},
 				core.SuccessReturn, notNeeded(fn), "the child is traversed (error checked) before success")
 			if m == "commitCheckpoint" {
-				cvc := core.NewCheckedVia(fn, func(in ssa.Instruction, cc *ssa.CallCommon) bool { return isInvoke(cc, m) && isRecvField(fn, cc.Value, "child") })
+				cvc := core.NewCheckedVia(fn, func(in ssa.Instruction, cc *ssa.CallCommon) bool {
+					return isInvoke(cc, m) && isRecvField(fn, cc.Value, "child")
+				})
 				q := core.PathQ{Fn: fn, Via: cvc.Via, ViaEdge: cvc.ViaEdge, Target: func(in ssa.Instruction, _ *ssa.BasicBlock) bool {
 					cc := core.CallOf(in)
 					return cc != nil && isInvoke(cc, "Remove") && core.CallDesc(cc).Recv == "CheckpointHashesHolder"
